@@ -189,6 +189,8 @@ def run_property(prop, tier, seed, only_units=None):
         for fc in hr['failed']:
             k = match_known_kani(known, prop, hr['unit'], hr['harness'], fc)
             if k:
+                if proofish:
+                    obligations -= 1   # a listed known finding is reported, not counted as an obligation of the proof claim
                 known_lines.append(f"KNOWN-FINDING: property={prop} unit={hr['unit']} harness={hr['harness']} {fc['desc']} @ {fc['loc']}: {k.get('what', '')}")
             else:
                 real.append(fc)
